@@ -23,3 +23,18 @@ pub fn good_cmp(a: i64, b: f64) -> Option<Ordering> {
     }
     Some(a.cmp(&(b.trunc() as i64)))
 }
+// R3: sign-changing cast without a guard (18446744073709551615u == -1)
+pub fn wrapping_eq(a: &u64, b: &i64) -> bool {
+    *a == *b as u64
+}
+// guarded twins: must stay silent
+pub fn good_int_eq(a: &i64, b: &u64) -> bool {
+    *a >= 0 && *a as u64 == *b
+}
+pub fn good_uint_eq(a: &u64, b: &i64) -> bool {
+    *a <= i64::MAX as u64 && *a as i64 == *b
+}
+// off by one: 2^63 itself wraps to i64::MIN
+pub fn closed_bound_eq(a: &u64, b: &i64) -> bool {
+    *a <= 9223372036854775808 && *a as i64 == *b
+}
